@@ -231,8 +231,16 @@ class Net(object):
                 gen.q[to].clear()
                 self.stats['hello_rejected'] += 1
                 return True
-            gen.open[to] = True
             old = self.view[to].get(frm)
+            if old is not None and old is not gen and old.id > gen.id:
+                # The hello of an older generation after a newer one has been registered: the acceptor takes
+                # connections in the order they were established, so this order does not occur with one listener
+                # (and the real transport would repair the confusion by its read timeout, which is not modelled).
+                gen.alive = False
+                gen.q[to].clear()
+                self.stats['stale_hello_dropped'] += 1
+                return True
+            gen.open[to] = True
             self.view[to][frm] = gen
             if old is not None and old is not gen:
                 self.stats['stale_replaced'] += 1
